@@ -59,9 +59,30 @@ def generate(seed, prop):
     for _ in range((rng.randint(3, 44 if deep() else 22)) if not long_world else rng.randint(2, 5)):
         name = rng.choices(names, [w[k] for k in names])[0]
         ops.append(draw_op(rng, name, fault_rate))
+    rename_paths(rng, ops)
     return {"machine": "recording", "property": prop, "run_seed": int(seed),
             "config": {"weights": w, "fault_rate": fault_rate},
             "world": {"records": recs}, "ops": ops, "faults": []}
+
+
+# file names: plain '<x>.json', and station-style names as the package's own sample data carry them (NETWORK.STATION.CONFIG,
+# numbered parts, versions) - several dots, no '.json' ending, pairs that differ only after the last dot
+DOTTED = [["UT.STN11.A2_C50", "UT.STN11.A2_C150", "UT.STN12.A2_C50"], ["site.001", "site.002", "site.json"],
+          ["rec.v1.json", "rec.v2.json", "rec"], ["a.b.json", "a.c.json", "a.json"], ["run 1/x.json", "run 1/x.JSON", "run 1/x"]]
+
+
+def draw_path(rng):
+    return "/simfs/r/" + rng.choice(["a", "b", "c"]) + ".json"
+
+
+def rename_paths(rng, ops):
+    """A run uses one naming style for its files (drawn per run, so that the names of a run can collide or not)."""
+    if rng.random() < 0.3:
+        names = rng.choice(DOTTED)
+        table = {"/simfs/r/%s.json" % x: "/simfs/r/" + n for x, n in zip("abc", names)}
+        for o in ops:
+            if o.get("path") in table:
+                o["path"] = table[o["path"]]
 
 
 def draw_op(rng, name, fault_rate):
@@ -112,13 +133,13 @@ def draw_op(rng, name, fault_rate):
     if name == "edit_meta":
         return {"op": name, "i": i, "key": rng.choice(["site", "note", "edited"]), "value": rng.choice(["x", 7, [1, 2]])}
     if name == "save":
-        op = {"op": "save", "i": i, "path": "/simfs/r/" + rng.choice(["a", "b", "c"]) + ".json"}
+        op = {"op": "save", "i": i, "path": draw_path(rng)}
         if rng.random() < fault_rate:
             op["fault"] = {"kind": rng.choice(["enospc", "eio_write", "crash_in_write", "short_write"]),
                            "frac": rng.choice([0.0, 0.05, 0.5, 0.95, 0.999])}
         return op
     if name == "load":
-        op = {"op": "load", "path": "/simfs/r/" + rng.choice(["a", "b", "c"]) + ".json"}
+        op = {"op": "load", "path": draw_path(rng)}
         if rng.random() < fault_rate:
             op["fault"] = {"kind": "eio_read", "at": rng.choice([0, 1, 2])}
         return op
@@ -496,7 +517,7 @@ def step(ctx, st, op, H):
             dry = SimFS(SimDisk(), None)               # dry run on a scratch disk: how long is this write?
             with Patched(dry, modules=(__import__("hvsrpy.seismic_recording_3c", fromlist=["x"]),)):
                 rec.save(path)
-            size = len(dry.read_bytes(path))
+            size = max([len(b_) for b_ in dry.disk.files.values()] or [1])   # whatever name the save gives its file
             fault["at"] = min(max(0, int(fault["frac"] * size)), size - 1)
             live = st.fs.arm(fault)          # applies to whatever file the save opens (also a temporary name)
             st.fault_kind = fault["kind"]
